@@ -3,12 +3,12 @@ Model: spec/Stop.tla (channel-level protocol of handle / worker / Stop), checked
 deadlock freedom, task-queue capacity and - under weak fairness - termination of Stop, processing of
 every tip and completion of every task.  Binding: every maximal behaviour of the model whose steps
 can be forced through the scheduling gates is replayed on the real goroutines."""
-import json, os, random, time
+import json, re, os, random, time
 import vlib, props
 from vlib import Infra
 
 IDS = ['C20']
-KINDS = ['stop-hangs', 'task-lost', 'task-refused', 'schedule-not-followed', 'died', 'timeout', 'step-error']
+KINDS = ['stop-hangs', 'task-lost', 'tip-not-processed', 'task-refused', 'schedule-not-followed', 'died', 'timeout', 'step-error']
 props.KINDS['C20'] = KINDS
 AMBIGUOUS_AFTER_CLOSE = ('WTake', 'HBlock', 'Suspend', 'Resume')   # a select with quit closed AND another ready case picks at random
 
@@ -24,6 +24,22 @@ def tlc_hist(cfg, module, scratch, ov):
     r = vlib.tlc(cfg, module, scratch, overrides=ov, workers=4, timeout=900)
     vlib.require_clean(r, 'generator %s %s' % (cfg, ov))
     return r
+
+
+def judge_traces(scratch, traces):
+    """each trace (list of event dicts) -> dict(accepted, maxl): TLC on StopTrace.tla; accepted iff the whole trace is consumed"""
+    import concurrent.futures
+
+    def one(lines):
+        r = vlib.tlc('Stop_Trace.cfg', 'StopTrace.tla', scratch, workers=1, timeout=600,
+                     extra_files={'trace.ndjson': '\n'.join(json.dumps(x) for x in lines) + '\n'})
+        if r['rc'] == 124 or r['error']:
+            raise Infra('trace judge failed: rc=%s\n%s' % (r['rc'], r['log'][-1500:]))
+        m = re.search(r'"MAXL", (\d+), (\d+)', r['log'])
+        return dict(accepted=bool(r['violated'] and 'NotAccepted' in r['violated']), maxl=int(m.group(1)) if m else 0,
+                    states=r.get('distinct', 0))
+    with concurrent.futures.ThreadPoolExecutor(max_workers=8) as ex:
+        return list(ex.map(one, traces))
 
 
 def check(pid, tier, scratch, replay):
@@ -73,12 +89,32 @@ def check(pid, tier, scratch, replay):
     for h in vlib.sample(idle, 40 if quick else 3000, rnd) + vlib.sample(stopped, 20 if quick else 2000, rnd):
         jobs.append(dict(u=g5['universe'], h=[], mode='stop-schedule', opt=dict(actions=h['actions'], tasks=h['tasks'], final=h['final']), src='Gen_Stop TasksI + 3 accepts'))
     runs.append(dict(cfg='Gen_Stop.cfg', tasks='TasksI + 3 accepts', behaviours=len(hs), never_stopped=len(idle)))
+    n_sched = len(jobs)
+    # code -> spec: free-running goroutines, random placement of the stop request, traces judged by TLC (StopTrace.tla)
+    scen = [(['import', 'import'], 3), (['remove'], 2), (['import', 'remove', 'import', 'import'], 4), ([], 3),
+            (['import', 'import', 'import', 'import'], 2), (['remove', 'import'], 3)]
+    n_free = 48 if quick else 900
+    for i in range(n_free):
+        t, b = scen[i % len(scen)]
+        jobs.append(dict(u=g5['universe'], h=[], mode='stop-free', src='free-run',
+                         opt=dict(tasks=t, blocks=b, seed=vlib.seed() * 100003 + i, final='idle' if i % 5 == 4 else 'stopped')))
     results = props.replay_jobs(scratch, jobs)
     redo = [i for i, r in enumerate(results) if r is None or r.get('died') or (r.get('diffs') and not r.get('ok'))]
     if redo and len(redo) <= 30:
         for i, r in zip(redo, props.replay_jobs(scratch, [jobs[i] for i in redo])):
             if r is not None and r.get('ok'):
                 results[i] = dict(r, index=i, flaky=True)
+    # judge the recorded traces
+    tr = [(i, r) for i, r in enumerate(results) if jobs[i]['mode'] == 'stop-free' and r and r.get('lines')]
+    judged = judge_traces(scratch, [r['lines'] for _, r in tr])
+    rejected = [(jobs[i], r, j) for (i, r), j in zip(tr, judged) if not j['accepted']]
+    events = sum(len(r['lines']) for _, r in tr)
+    if rejected:
+        job, r, j = rejected[0]
+        p = vlib.save_replay(pid, '%s-trace-%s' % (tier, vlib.short_hash(json.dumps(r['lines']))), dict(property=pid, opt=job['opt'], trace=r['lines'], longest_explained_prefix=j['maxl']))
+        raise Infra('%d of %d traces of the free-running system are not behaviours of spec/Stop.tla (first: %d of %d events explained, next event %s; trace kept in %s): '
+                    'the specification no longer describes the code - no verdict' % (len(rejected), len(tr), j['maxl'] - 1, len(r['lines']),
+                    r['lines'][j['maxl'] - 1] if 0 < j['maxl'] <= len(r['lines']) else None, p))
     violations, infra = [], 0
     for job, res in zip(jobs, results):
         ks = set(props.kinds_of(res))
@@ -96,19 +132,21 @@ def check(pid, tier, scratch, replay):
         seen.add(sig)
         p = vlib.save_replay(pid, '%s-%s' % (tier, vlib.short_hash(json.dumps(job['opt']))), dict(property=pid, universe=job['u'], opt=job['opt'], result=res))
         print('VIOLATION property=%s replay=%s' % (pid, p))
-        print('  schedule: %s (tasks %s, model final state: %s)' % (' '.join(job['opt']['actions']), job['opt']['tasks'], job['opt']['final']))
+        print('  schedule: %s (tasks %s, model final state: %s)' % (' '.join(job['opt'].get('actions') or ['free-running']), job['opt']['tasks'], job['opt']['final']))
         for d in (res.get('diffs') or [])[:2]:
             print('  %s: want=%s got=%s' % (d['kind'], d['want'], d['got'][:1500]))
         if res.get('err'):
             print('  err: %s' % res['err'])
     cov = dict(states=max(states, 1), transitions=max(trans, 1), traces_validated_against_impl=len(jobs) - infra,
                samples=[dict(schedule=j['opt']['actions'], tasks=j['opt']['tasks'], final=j['opt']['final']) for j in jobs[:4]],
+               free_running_traces_judged_by_TLC=len(tr), free_running_trace_events=events, free_running_without_stop_request=sum(1 for i, _ in tr if jobs[i]['opt']['final'] == 'idle'),
+               trace_spec='spec/StopTrace.tla (every trace accepted: all events consumed)',
                model_runs=runs, maximal_behaviours_of_model=total, inconclusive=infra,
                liveness_checked=['StopReturns', 'TipsProcessed', 'TasksFinish'],
                rule='every maximal behaviour of spec/Stop.tla for three scenarios (removal + a tip, two-batch import, tips only); those whose steps after close(quit) are forced (no select with two ready cases) are replayed: each model action releases the goroutine(s) performing it from its scheduling gate and waits for the next gate; the final state says whether Stop must have returned')
     vlib.write_evidence(pid, tier, 'model_checking', cov, time.time() - t0, len(violations),
                         ['the scheduling gates are build-tagged no-op calls at the points named in MANIFEST.hooks; with quit closed a Go select with a second ready case picks at random, so behaviours that take such a step after close(quit) are model-checked but not replayed',
                          'liveness is checked on the model under weak fairness of every step; on the code Stop must return within 8 s of the last forced step'])
-    print('%s %s: %d model states, %d of %d maximal behaviours replayed on real goroutines, violations=%d inconclusive=%d wall=%.0fs'
-          % (pid, tier, states, len(jobs), total, len(violations), infra, time.time() - t0))
+    print('%s %s: %d model states, %d of %d maximal behaviours replayed on real goroutines, %d free-running traces (%d events) accepted by TLC, violations=%d inconclusive=%d wall=%.0fs'
+          % (pid, tier, states, n_sched, total, len(tr), events, len(violations), infra, time.time() - t0))
     return 1 if violations else 0
